@@ -251,6 +251,8 @@ type batchCfg struct {
 	shrink  bool
 	corpus  string
 	maxKeep int
+	// no shrink re-run is started after this instant
+	shrinkUntil time.Time
 }
 
 func loadCorpus(dir, prop string) []*History {
@@ -374,6 +376,10 @@ func runBatch(cfg *batchCfg) *Summary {
 	sum.Restarts = cr.restarts
 	// failures, the first of each signature shrunk
 	sort.SliceStable(fails, func(i, j int) bool { return fails[i].h.ID < fails[j].h.ID })
+	cfg.shrinkUntil = time.Now().Add(25 * time.Second)
+	if cfg.tier == "thorough" {
+		cfg.shrinkUntil = time.Now().Add(4 * time.Minute)
+	}
 	seen := map[string]bool{}
 	var swg sync.WaitGroup
 	recs := make([]FailRec, len(fails))
@@ -570,7 +576,7 @@ func shrinkHistory(cfg *batchCfg, h *History, sig string) (*History, outcome) {
 	var curOC outcome
 	improved := false
 	try := func(c *History) bool {
-		if c == nil || budget <= 0 {
+		if c == nil || budget <= 0 || time.Now().After(cfg.shrinkUntil) {
 			return false
 		}
 		budget--
